@@ -8,7 +8,9 @@ PROPS_FILES = ["Nic/Props/C16.lean", "Nic/Props/TieClass.lean"]
 # Go functions translated from /repo on every run (tools/gofn) and proved equal to the model in the Tie file above
 TIE_FUNCS = ['internal/k8s/controller.go:LoadBalancerController.HasCorrectIngressClass']
 HARNESS = "vh-k8s"
-RULE = ("(a) class predicate: exhaustive over kind {Ingress, VirtualServer, VirtualServerRoute, TransportServer, Policy, other} x annotation "
+RULE = ("Policies through the real controller (informer handlers, sync, Configurator on a temporary root): a Policy used by served VirtualServers "
+        "changes only its class to another controller's, alone, inside a burst, and back; every served resource's files must equal a fresh generation. " +
+        "(a) class predicate: exhaustive over kind {Ingress, VirtualServer, VirtualServerRoute, TransportServer, Policy, other} x annotation "
         "{absent, empty, ours, foreign} x field {absent, empty, ours, foreign}, real HasCorrectIngressClass vs the Lean decision table. "
         "(b) non-interference: histories in which classes are set, unset and flipped (annotation and field) are run on the real Configuration "
         "together with their projection (every foreign-class event replaced by a delete of that key); changes, problems, GetResources and the "
@@ -126,8 +128,33 @@ def gen_class_flip(rng):
     return arbgen.line(True, False, ops)
 
 
+LBC_BASE = ("+s1/0&+s2/0&+e1.0/s1/a&+e1.1/s1/b&+e2.0/s2/a&+k1/htpasswd/0&+k2/jwk/0&+k3/apikey/0&+k4/ca/0&+k5/tls/0&+p1/basic/k1/0&+p2/jwt/k2/0&"
+            "+p3/apikey/k3/0&+p4/rl/_/0&+p5/emtls/k4/0&+p6/imtls/k4/0&+v1/s1/0/pol=p6/tls=k5&+v2/s1/0/rpol=%s&+i1/s2/0/basic=k1&+i2/s1/0&+t1/s2/0")
+LBC_POLS = {"p1": "+p1/basic/k1/0", "p3": "+p3/apikey/k3/0", "p4": "+p4/rl/_/0", "p5": "+p5/emtls/k4/0", "p6": "+p6/imtls/k4/0"}
+
+
+def gen_policy_class_away(rng, tier):
+    """A Policy that served VirtualServers use goes to another controller's class (only its class changes), alone or in the middle of a
+    burst of unrelated events, and sometimes comes back: through the real informer handlers and the real sync. A foreign Policy never
+    contributes configuration — the files of every served resource must equal a fresh generation from the current stores (seed C16-6)."""
+    out = []
+    for plus in (0, 1):
+        for rpol in ("p1", "p3", "p4", "p5"):
+            b = LBC_BASE % rpol
+            for pol, spec in sorted(LBC_POLS.items()):
+                ch = spec + "/cls=other"
+                seqs = [[ch], [ch, spec], ["+e3.0/s3/a&%s&+e3.1/s3/b" % ch], [ch, "+e1.0/s1/a+c"]]
+                for sq in seqs:
+                    if tier == "quick" and rng.chance(1, 2):
+                        continue
+                    out.append("lbc plus=%d dssl=1 rf=_ af=_ bursts=%s;%s" % (plus, b, ";".join(sq)))
+    return out
+
+
 def gen(rng, tier):
     cases = []
+    for l in gen_policy_class_away(rng, tier):
+        cases.append(dict(line=l, tags=["policy-class-away"]))
     for i in range(200 if tier == "quick" else 2000):
         cases.append(dict(line=gen_class_flip(rng), tags=["class-flip"]))
         if i % 3 == 0:
@@ -189,6 +216,28 @@ def run_cases(cases, bins, res, tier, broken):
         if impl != model:
             # the Lean table is the Spec here (it is the property's own decision table)
             res["spec_bad"].append((dict(line=c["line"], impl=impl, spec=model), "class decision: real=%s decision table=%s for %s" % (impl, model, c["line"])))
+    # Policies through the real controller: the generated files against a fresh generation from the current stores
+    lbc = [c for c in cases if c["line"].startswith("lbc ")]
+    if lbc:
+        ls = ["lbc %d %s" % (i, c["line"].split(" ", 1)[1]) for i, c in enumerate(lbc)]
+        impl, _ = vlib.run_harness(binpath, ls, parallel=8)
+        dl = ["lbc %d %s trace=%s" % (i, c["line"].split(" ", 1)[1], impl.get(str(i))) for i, c in enumerate(lbc)
+              if impl.get(str(i)) and not impl.get(str(i)).startswith(("CRASH", "setup", "PANIC"))]
+        _, spec, _ = vlib.run_driver(dl)
+        for i, c in enumerate(lbc):
+            res["evaluations"] += 1
+            for t in c.get("tags", []):
+                res["dist"][t] = res["dist"].get(t, 0) + 1
+            im, sp = impl.get(str(i)), spec.get(str(i))
+            if im is None or sp is None:
+                res["corr_bad"].append((dict(line=c["line"]), "harness: %s" % (im or "no output")[:200]))
+                continue
+            res["validated"] += 1
+            if "S|" in im:
+                res["nontrivial"].add(vlib.sha(c["line"]))
+            stale = [x for x in sp.split(";") if ":stale:" in x]
+            if stale:
+                res["spec_bad"].append((dict(line=c["line"], impl=im[:2000]), "a Policy that went to another class still contributes configuration: " + stale[0]))
     lines = [c["line"] for c in hist]
     plines = [project(l) for l in lines]
     outs, rc, err = arbprop.eval_lines(binpath, lines)
